@@ -523,3 +523,132 @@ fn c07_canary_crlf_consumes_nothing() {
     }
     core::mem::forget(r);
 }
+
+// ---------------------------------------------------------------- size-line limits (added in round 5)
+//
+// The handler lemmas above bound the window at 6 (8) bytes, so neither the 20-character sanity
+// limit on a size line nor a size value beyond usize is inside them. The two cells below put the
+// bound where those limits are: concrete maximal-length size lines with a SYMBOLIC cut, and a
+// 17-digit size line with SYMBOLIC hex digits.
+
+/// Safe, byte-wise stand-in for `core::str::from_utf8` (the real one validates in usize blocks
+/// through raw pointers, which CBMC unrolls per alignment case): same verdict, same `&str`.
+fn p_from_utf8(v: &[u8]) -> Result<&str, core::str::Utf8Error> {
+    match v.utf8_chunks().next() {
+        None => Ok(""),
+        Some(c) => {
+            if c.invalid().is_empty() && c.valid().len() == v.len() {
+                Ok(c.valid())
+            } else {
+                let mut bad = [0xffu8];
+                Err(core::str::from_utf8_mut(&mut bad).err().unwrap())
+            }
+        }
+    }
+}
+
+const C07_LINE_EXT: &[u8; 27] = b"5;ext=abcdefghijklmn\r\nhello";
+const C07_LINE_ZEROS: &[u8; 27] = b"00000000000000000005\r\nhello";
+
+//@ props: C07 C01
+//@ tier: off
+//@ unwind: 30
+//@ timeout: 1200
+//@ mem: 16
+//@ encodes: Dechunker::read_size, util::find_crlf, str::trim, usize::from_str_radix (str::from_utf8 replaced by a byte-wise equivalent built on <[u8]>::utf8_chunks)
+//@ vars: pre-state Size; window = the first l bytes of a 20-character size line (either `5;ext=abcdefghijklmn` or `00000000000000000005`) + CRLF + 5 data bytes; l: any 0..=27 (every cut, incl. between CR and LF); which line: any bool
+//@ bounds: two concrete size lines of the maximal permitted length (SANITY_CHECK = 20); one handler step per cut
+//@ outside: other line contents of that length (shorter lines with symbolic contents: c07_handler_read_size)
+//@ clause: every strict prefix of the size line + CRLF decides nothing, consumes nothing and never errs; from the complete line on, exactly the 22 bytes of the line are consumed and the state is Chunk(5)
+#[kani::proof]
+#[kani::stub(core::str::from_utf8, p_from_utf8)]
+fn c07_size_line_at_limit_every_cut() {
+    let l = any_le(27);
+    let which: bool = kani::any();
+    let line: &[u8; 27] = if which { C07_LINE_EXT } else { C07_LINE_ZEROS };
+    let mut d = Dechunker::Size;
+    let mut pos = Pos { index_in: 0, index_out: 0 };
+    let r = d.read_size(&line[..l], &mut pos);
+    kani::cover!(l == 21, "cut-between-cr-and-lf");
+    kani::cover!(l == 27 && which, "whole-window-ext");
+    kani::cover!(l == 27 && !which, "whole-window-zeros");
+    match r {
+        Err(e) => {
+            core::mem::forget(e);
+            assert!(false, "C07/valid-coding-never-errs");
+        }
+        Ok(more) => {
+            if l < 22 {
+                assert!(!more && pos.index_in == 0 && matches!(d, Dechunker::Size), "C07/incomplete-size-line-decides-nothing");
+            } else {
+                assert!(more && pos.index_in == 22, "C07/size-line-consumed-exactly");
+                assert!(matches!(d, Dechunker::Chunk(5)), "C07/size-line-value");
+            }
+            assert!(pos.index_out == 0, "C07/size-line-produces-no-output");
+        }
+    }
+}
+
+//@ props: C12
+//@ tier: off
+//@ unwind: 30
+//@ timeout: 1800
+//@ mem: 24
+//@ encodes: Dechunker::read_size, util::find_crlf, str::trim, usize::from_str_radix (str::from_utf8 replaced by a byte-wise equivalent built on <[u8]>::utf8_chunks)
+//@ vars: pre-state Size; window = 17 or 18 SYMBOLIC hex digits (any case, first digit non-zero so that the value exceeds usize) + optional `;x` + CRLF + `abcde`; digit count: any of 17, 18
+//@ bounds: size lines of 17..=20 characters whose value does not fit usize; one handler step
+//@ outside: oversize lines with interior whitespace / other lengths
+//@ clause: a size that does not fit usize is an error - never a panic / arithmetic overflow inside hoot, never a wrapped-around chunk length (Err, or a saturated length); an error consumes nothing
+#[kani::proof]
+#[kani::stub(core::str::from_utf8, p_from_utf8)]
+fn c12_size_line_overflowing_usize() {
+    let digits: [u8; 18] = kani::any();
+    let mut i = 0;
+    while i < 18 {
+        let c = digits[i];
+        kani::assume((c >= b'0' && c <= b'9') || (c >= b'a' && c <= b'f') || (c >= b'A' && c <= b'F'));
+        i += 1;
+    }
+    kani::assume(digits[0] != b'0');
+    let n18: bool = kani::any();
+    let ext: bool = kani::any();
+    let mut w = [0u8; 28];
+    let mut k = 0;
+    while k < 17 {
+        w[k] = digits[k];
+        k += 1;
+    }
+    if n18 {
+        w[k] = digits[17];
+        k += 1;
+    }
+    if ext {
+        w[k] = b';';
+        w[k + 1] = b'x';
+        k += 2;
+    }
+    w[k] = b'\r';
+    w[k + 1] = b'\n';
+    let tail = b"abcde";
+    let mut j = 0;
+    while j < 5 {
+        w[k + 2 + j] = tail[j];
+        j += 1;
+    }
+    let l = k + 7;
+    let mut d = Dechunker::Size;
+    let mut pos = Pos { index_in: 0, index_out: 0 };
+    let r = d.read_size(&w[..l], &mut pos);
+    kani::cover!(n18 && ext, "twenty-character-line");
+    kani::cover!(!n18 && !ext, "seventeen-digits");
+    match r {
+        Err(e) => {
+            core::mem::forget(e);
+            assert!(pos.index_in == 0 && pos.index_out == 0, "C12/error-consumes-nothing");
+        }
+        Ok(_) => {
+            // a decoder that saturates instead of failing would still be in step with the server
+            assert!(matches!(d, Dechunker::Chunk(usize::MAX)), "C12/oversize-chunk-length-never-wraps");
+        }
+    }
+}
